@@ -25,6 +25,7 @@ RULES = {
     'R4': 'SPEC(get_utxos_from_chain | min_confirmations = 0): no feasible early exit from the chain walk',
     'R5': 'EXPR of each BlockchainInfo field',
     'R6': 'EXPR of main_chain_height',
+    'R7': 'the anchor advances only to the child the stability decision table selects, the heaviest (= C03.R5)',
 }
 ASSUMPTIONS = ['depth counts fit i32 (`as i32` does not wrap)']
 BT = 'ic_btc_canister::blocktree::BlockTree::'
@@ -39,6 +40,12 @@ def run(ctx):
     # same tip (shared with C05.R1 `unfiltered-total`)
     from rules import c05
     c05.unfiltered_total(ctx, 'R4')
+    # R7: the anchor only advances into the heaviest branch: a forced advance down a lighter branch
+    # discards the accepted heaviest chain, after which every endpoint serves a lighter one (shared with
+    # the decision table of C03.R5)
+    from sa.engine import SubCtx
+    from rules import c03
+    c03.r5(SubCtx(ctx, {'R5': 'R7'}))
     r5_r6(ctx)
 
 
